@@ -148,8 +148,15 @@ async fn scenario(ctx: &Ctx, rng: &mut Rng, epmd: &net::EpmdTable, id: usize, sc
             };
             if unknown {
                 // a reply for a call that never existed (another pid of the same node)
+                // (another pid of the same node: another number, or the same number with another serial / creation /
+                // node name - an identifier of an earlier incarnation or era)
                 if let Val::Pid { node, id, serial, creation } = &r.reply_to {
-                    let ghost = Val::Pid { node: node.clone(), id: id.wrapping_add(500_000), serial: *serial, creation: *creation };
+                    let ghost = match k % 4 {
+                        0 => Val::Pid { node: node.clone(), id: id.wrapping_add(500_000), serial: *serial, creation: *creation },
+                        1 => Val::Pid { node: node.clone(), id: *id, serial: serial.wrapping_add(1), creation: *creation },
+                        2 => Val::Pid { node: node.clone(), id: *id, serial: *serial, creation: creation.wrapping_add(1) },
+                        _ => Val::Pid { node: format!("x{}", node), id: *id, serial: *serial, creation: *creation },
+                    };
                     let _ = peer.write_frame4(&reply_frame(&ghost, 424242)).await;
                 }
             }
